@@ -409,11 +409,17 @@ func (w *worker[T, JobType]) goRemoveIdleWorkers() {
 			}
 
 			nodes := w.pool.NodeSlice()
+
+			// the pool may have shrunk since its length was read
+			if len(nodes) <= targetIdleWorkers {
+				continue
+			}
+
 			// If we have more nodes than our target, close the excess ones
 			for _, node := range nodes[targetIdleWorkers:] {
-				if node.Value.GetLastUsed().Add(interval).Before(time.Now()) &&
-					!(node.Next() == nil && node.Prev() == nil) { // if both nil, it means the node is not in the list and not idle
-					w.pool.Remove(node)
+				// Only whoever takes the node out of the list may stop it: the event loop may
+				// have popped it for a job since the snapshot was taken.
+				if node.Value.GetLastUsed().Add(interval).Before(time.Now()) && w.pool.Remove(node) {
 					node.Value.Stop()
 					w.pool.Cache.Put(node)
 				}
@@ -491,9 +497,11 @@ func (w *worker[T, JobType]) closeChannels() {
 // stopAndRemoveAllWorkers removes all nodes from the list and closes the pool nodes
 func (w *worker[T, JobType]) stopAndRemoveAllWorkers() {
 	for _, node := range w.pool.NodeSlice() {
-		w.pool.Remove(node)
-		node.Value.Stop()
-		w.pool.Cache.Put(node)
+		// a node that is no longer in the list belongs to whoever removed it
+		if w.pool.Remove(node) {
+			node.Value.Stop()
+			w.pool.Cache.Put(node)
+		}
 	}
 }
 
